@@ -65,17 +65,29 @@ ASSUMPTIONS = [
 # constants read from the source
 
 
+class _Shape(Exception):
+    pass
+
+
 def _tuple_of_names(fn, what):
-    """`isinstance(self, BaseException) and name in (<str>, ...)` inside the first `if` of fn."""
+    """`isinstance(self, BaseException) and name in (<str>, ...)` inside the first `if` of fn.
+    Fail-closed: any other shape yields a sentinel that cannot equal the model's constants."""
+    try:
+        return _tuple_of_names_strict(fn, what)
+    except _Shape as e:
+        return ["<unrecognised: %s>" % str(e).replace('"', "'")]
+
+
+def _tuple_of_names_strict(fn, what):
     first = [n for n in fn.body if not (isinstance(n, ast.Expr) and isinstance(getattr(n, "value", None), ast.Constant))]
     if len(first) != 2 or not isinstance(first[0], ast.If) or not isinstance(first[1], ast.Raise):
-        raise vlib.Infra("C05 constants: %s no longer has the shape `if <test>: ...; raise FrozenInstanceError`" % what)
+        raise _Shape("%s no longer has the shape `if <test>: ...; raise FrozenInstanceError`" % what)
     r = first[1].exc
     if not (isinstance(r, ast.Name) and r.id == "FrozenInstanceError"):
-        raise vlib.Infra("C05 constants: %s does not end in `raise FrozenInstanceError`" % what)
+        raise _Shape("%s does not end in `raise FrozenInstanceError`" % what)
     t = first[0].test
     if not (isinstance(t, ast.BoolOp) and isinstance(t.op, ast.And) and len(t.values) == 2):
-        raise vlib.Infra("C05 constants: test of %s is not `isinstance(...) and name in (...)`" % what)
+        raise _Shape("test of %s is not `isinstance(...) and name in (...)`" % what)
     isi, cmp_ = t.values
     ok_isi = (isinstance(isi, ast.Call) and isinstance(isi.func, ast.Name) and isi.func.id == "isinstance"
               and len(isi.args) == 2 and isinstance(isi.args[1], ast.Name) and isi.args[1].id == "BaseException")
@@ -83,11 +95,11 @@ def _tuple_of_names(fn, what):
               and isinstance(cmp_.left, ast.Name) and cmp_.left.id == "name"
               and isinstance(cmp_.comparators[0], ast.Tuple))
     if not (ok_isi and ok_cmp):
-        raise vlib.Infra("C05 constants: test of %s is not `isinstance(self, BaseException) and name in (...)`" % what)
+        raise _Shape("test of %s is not `isinstance(self, BaseException) and name in (...)`" % what)
     names = []
     for e in cmp_.comparators[0].elts:
         if not (isinstance(e, ast.Constant) and isinstance(e.value, str)):
-            raise vlib.Infra("C05 constants: non-literal name in the tuple of %s" % what)
+            raise _Shape("non-literal name in the tuple of %s" % what)
         names.append(e.value)
     return names
 
@@ -98,9 +110,9 @@ def pre_build():
     fns = {n.name: n for n in mod.body if isinstance(n, ast.FunctionDef)}
     for need in ("_frozen_setattrs", "_frozen_delattrs"):
         if need not in fns:
-            raise vlib.Infra("C05 constants: %s not found in _make.py" % need)
-    s = _tuple_of_names(fns["_frozen_setattrs"], "_frozen_setattrs")
-    d = _tuple_of_names(fns["_frozen_delattrs"], "_frozen_delattrs")
+            fns[need] = None
+    s = _tuple_of_names(fns["_frozen_setattrs"], "_frozen_setattrs") if fns["_frozen_setattrs"] else ["<missing>"]
+    d = _tuple_of_names(fns["_frozen_delattrs"], "_frozen_delattrs") if fns["_frozen_delattrs"] else ["<missing>"]
     text = ("(* generated by harness/c05.py:pre_build from src/attr/_make.py - do not edit *)\n"
             "From Coq Require Import List String.\nImport ListNotations.\nOpen Scope string_scope.\n"
             "Definition src_set_ok : list string := %s.\n"
@@ -1063,6 +1075,15 @@ def distribution(cases):
 
 
 def rerun(inp):
+    if "runtime" in inp:
+        # a runtime-only observation: run them again; the case literal only carries the verdict
+        out, _cov = extra("quick", inp.get("seed", 0))
+        again = [d for d in out if d.replay["input"]["runtime"] == inp["runtime"]
+                 and d.replay["input"]["detail"] == inp["detail"]]
+        ok = "(Build_case [] None [] (Build_call [] [] None true) None None [] [])"
+        failing = "(Build_case [] (Some 0) [] (Build_call [] [] None true) None None [] [])"
+        return Case(failing if again else ok, inp, {"runtime observation fails": bool(again), "what": inp["runtime"],
+                                                    "detail": inp["detail"]}, sig={"kind": "runtime"})
     return make_case(inp)
 
 
@@ -1138,17 +1159,53 @@ def _synth_module(tag):
 
 
 def _is_frozen_instance(o, name="x"):
+    """set refuses a field; delete refuses a name that does not exist (nothing is destroyed if it does not)."""
     try:
-        setattr(o, name, 0)
+        setattr(o, name, getattr(o, name))
     except FrozenInstanceError:
         pass
+    except Exception:
+        return False
     else:
         return False
     try:
-        delattr(o, name)
+        delattr(o, "no_such_attribute_")
     except FrozenInstanceError:
         return True
+    except Exception:
+        return False
     return False
+
+
+def _observe_instance(obs, m, cn, cls, cnt, o, cache, suffix, copy, pickle):
+    want = [("conv", cnt), 5, (), ("post", 5)] + ([7] if suffix == "_sub" else [])
+    got = [o.x, o.y, o.z, o.w] + ([o.v] if suffix == "_sub" else [])
+    obs(got == want, "construct-values", "%s: %r" % (cn, got))
+    obs(_is_frozen_instance(o), "frozen", cn)
+    if cache:
+        h1 = hash(o)
+        n1 = cnt.n
+        h2 = hash(o)
+        obs(h1 == h2 and n1 == 1 and cnt.n == 1, "hash-cached-once", "%s: %r" % (cn, (h1 == h2, n1, cnt.n)))
+        obs(_is_frozen_instance(o) and [o.x, o.y, o.z, o.w] == want[:4], "frozen-after-hash", cn)
+    for how, fn in (("copy", copy.copy), ("deepcopy", copy.deepcopy),
+                    ("pickle", lambda v: pickle.loads(pickle.dumps(v))),
+                    ("evolve", lambda v: attr.evolve(v, x=v.x[1]) if False else attr.evolve(v))):
+        try:
+            if how == "evolve":
+                # w is init=False: evolve re-runs __init__ (x goes through the converter again)
+                c2 = attr.evolve(o, x=cnt)
+            else:
+                c2 = fn(o)
+        except Exception as e:
+            obs(False, how, "%s: %s" % (cn, type(e).__name__))
+            continue
+        same = (type(c2) is cls and c2.x == o.x and c2.y == o.y and c2.z == o.z and c2.w == o.w
+                and (suffix != "_sub" or c2.v == o.v))
+        obs(same and (c2 == o), how + "-equal", cn)
+        obs(_is_frozen_instance(c2), how + "-still-frozen", cn)
+        if cache and how != "evolve":
+            obs(hash(c2) == hash(o), how + "-hash", cn)
 
 
 def extra(tier, seed):
@@ -1162,7 +1219,7 @@ def extra(tier, seed):
         n[0] += 1
         if not ok:
             out.append(Discrepancy({"kind": "runtime", "what": what}, "runtime observation failed: %s (%s)" % (what, detail),
-                                   {"runtime": what, "detail": detail}))
+                                   {"input": {"runtime": what, "detail": detail, "seed": seed}}))
 
     obs(issubclass(FrozenInstanceError, FrozenError) and issubclass(FrozenError, AttributeError),
         "exception-hierarchy", "FrozenInstanceError < FrozenError < AttributeError")
@@ -1179,34 +1236,11 @@ def extra(tier, seed):
                     except Exception as e:
                         obs(False, "construct", "%s: %s" % (cn, type(e).__name__))
                         continue
-                    want = [("conv", cnt), 5, (), ("post", 5)] + ([7] if suffix == "_sub" else [])
-                    got = [o.x, o.y, o.z, o.w] + ([o.v] if suffix == "_sub" else [])
-                    obs(got == want, "construct-values", "%s: %r" % (cn, got))
-                    obs(_is_frozen_instance(o), "frozen", cn)
-                    if cache:
-                        h1 = hash(o)
-                        n1 = cnt.n
-                        h2 = hash(o)
-                        obs(h1 == h2 and n1 == 1 and cnt.n == 1, "hash-cached-once", "%s: %r" % (cn, (h1 == h2, n1, cnt.n)))
-                        obs(_is_frozen_instance(o) and [o.x, o.y, o.z, o.w] == want[:4], "frozen-after-hash", cn)
-                    for how, fn in (("copy", copy.copy), ("deepcopy", copy.deepcopy),
-                                    ("pickle", lambda v: pickle.loads(pickle.dumps(v))),
-                                    ("evolve", lambda v: attr.evolve(v, x=v.x[1]) if False else attr.evolve(v))):
-                        try:
-                            if how == "evolve":
-                                # w is init=False: evolve re-runs __init__ (x goes through the converter again)
-                                c2 = attr.evolve(o, x=cnt)
-                            else:
-                                c2 = fn(o)
-                        except Exception as e:
-                            obs(False, how, "%s: %s" % (cn, type(e).__name__))
-                            continue
-                        same = (type(c2) is cls and c2.x == o.x and c2.y == o.y and c2.z == o.z and c2.w == o.w
-                                and (suffix != "_sub" or c2.v == o.v))
-                        obs(same and (c2 == o), how + "-equal", cn)
-                        obs(_is_frozen_instance(c2), how + "-still-frozen", cn)
-                        if cache and how != "evolve":
-                            obs(hash(c2) == hash(o), how + "-hash", cn)
+                    try:
+                        _observe_instance(obs, m, cn, cls, cnt, o, cache, suffix, copy, pickle)
+                    except Exception as e:
+                        obs(False, "observation-crashed", "%s: %s" % (cn, type(e).__name__))
+                    continue
             for suffix in ("_exc", "_exc_plain"):
                 cn = name + suffix
                 cls = getattr(m, cn)
